@@ -1,5 +1,6 @@
 """C10 — field types: the decoder clause only (checked decoders reject non-canonical encodings)."""
-from ..engines import checked
+from ..core import walk, callee, peel, pat_bindings, short
+from ..engines import checked, hirq
 from .. import tables
 
 
@@ -8,8 +9,133 @@ def run(ck):
     ck.explanation = (
         'Decides only the decoder clause of the property: every checked field decoder (from_repr, from_bytes[_le/_be], from_u64s_le, SerdeObject::from_raw_bytes / '
         'read_raw) of the BLS12-381 scalar and base fields, Fp2, the Jubjub scalar field, Curve25519 and secp256k1 base fields reaches the modulus comparison of '
-        'its type, uses its result and returns failures instead of unwrapping. All arithmetic, constants, tower construction, square roots and uniform reduction '
+        'its type, uses its result and returns failures instead of unwrapping; and (R2) each modulus comparison itself is STRICT (x < p, never x <= p), in one of '
+        'the recognised forms. All arithmetic, constants, tower construction, square roots and uniform reduction '
         'are numerical and NOT decided by static analysis.')
     ck.rule('C10.R1', 'CHECKED(field decoders): call closure contains the canonicity validator, its result is live, no unwrap in the decoder')
     n = checked.check_rows(ck, w, 'C10.R1', tables.C10_DECODERS)
     ck.floor('C10.R1', 'decoder/validator obligations', n, 15)
+    r2_strict(ck, w)
+
+
+def mentions_modulus(n):
+    return any(x.get('k') == 'path' and 'MODULUS' in (x.get('p') or '').rsplit('::', 1)[-1] for x in walk(n))
+
+
+def is_lit(n, v):
+    n = peel(n)
+    return n.get('k') == 'lit' and n.get('v') in (f'i:{v}', f'bool:{v}', str(v))
+
+
+def lit_bool(n):
+    n = peel(n)
+    while n.get('k') == 'block' and not n.get('ss') and 'e' in n:
+        n = peel(n['e'])
+    if n.get('k') == 'block' and len(n.get('ss', [])) == 1 and 'e' not in n:
+        n = peel(n['ss'][0])
+        while n.get('k') in ('semi', 'stmt'):
+            n = peel(n['e'])
+    if n.get('k') == 'ret' and 'e' in n:
+        n = peel(n['e'])
+    if n.get('k') == 'lit' and n.get('v') in ('bool:true', 'bool:false'):
+        return n['v'] == 'bool:true'
+    return None
+
+
+def classify_validator(f):
+    """(forms recognised, problems) for a function deciding `candidate < modulus`"""
+    body = f['body']
+    forms, problems = [], []
+    # ---- form B: borrow chain  x - p  (borrow set  <=>  x < p)
+    sbbs = [n for n in hirq.calls(body) if (callee(n) or '').endswith('arithmetic::sbb')]
+    msbbs = [n for n in sbbs if any(mentions_modulus(a) for a in n.get('args', []))]
+    if msbbs:
+        forms.append('borrow-chain')
+        for n in msbbs:
+            a = n['args']
+            if not (mentions_modulus(a[1]) and not mentions_modulus(a[0])):
+                problems.append(f'line {n.get("l")}: sbb(p, x, ..) subtracts the candidate from the modulus: no borrow <=> x <= p (non-strict)')
+        masks = [n for n in walk(body) if n.get('k') == 'bin' and n.get('op') == '&' and (is_lit(n['b'], 1) or is_lit(n['a'], 1))]
+        if not masks:
+            problems.append('the final borrow is not reduced to its low bit (`borrow as u8 & 1`)')
+        for n in walk(body):
+            if n.get('k') == 'bin' and n.get('op') in ('==', '!='):
+                sides = [peel(n['a']), peel(n['b'])]
+                for i in (0, 1):
+                    if any(sides[i] is m for m in masks):
+                        other = sides[1 - i]
+                        good = (n['op'] == '==' and is_lit(other, 1)) or (n['op'] == '!=' and is_lit(other, 0))
+                        if not good:
+                            problems.append(f'line {n.get("l")}: accepts when the subtraction x - p does NOT borrow, i.e. when x >= p')
+    # ---- form A: lexicographic scan from the most significant limb
+    for lp in [n for n in walk(body) if n.get('k') == 'for' and mentions_modulus(n['iter'])]:
+        forms.append('lexicographic-scan')
+        zips = [m for m in walk(lp['iter']) if m.get('k') == 'mcall' and m.get('m') == 'zip']
+        if not any(m.get('k') == 'mcall' and m.get('m') == 'rev' for m in walk(lp['iter'])):
+            problems.append(f'line {lp.get("l")}: the scan does not start from the most significant limb (.rev() missing)')
+        binds = pat_bindings(lp['pat'])
+        if len(zips) != 1 or len(binds) != 2:
+            problems.append(f'line {lp.get("l")}: unrecognised scan shape')
+            continue
+        mod_first = mentions_modulus(zips[0]['recv'])
+        x_id, p_id = (binds[1]['i'], binds[0]['i']) if mod_first else (binds[0]['i'], binds[1]['i'])
+        seen = {}
+        for n in walk(lp['body']):
+            if n.get('k') != 'if':
+                continue
+            c = peel(n['c'])
+            if c.get('k') != 'bin' or c.get('op') not in ('<', '>', '<=', '>=', '==', '!='):
+                continue
+            a, b = peel(c['a']), peel(c['b'])
+            if a.get('k') != 'local' or b.get('k') != 'local' or {a['i'], b['i']} != {x_id, p_id}:
+                continue
+            op = c['op']
+            if a['i'] == p_id:      # normalise to  x OP p
+                op = {'<': '>', '>': '<', '<=': '>=', '>=': '<='}.get(op, op)
+            seen[op] = lit_bool(n['a'])
+        if seen.get('<') is not True or seen.get('>') is not False or any(o in seen for o in ('<=', '>=')):
+            problems.append(f'line {lp.get("l")}: limb decisions are {seen}: expected  x_i < p_i -> true,  x_i > p_i -> false  and nothing else')
+        tail = lit_bool(body['e']) if body.get('k') == 'block' and 'e' in body else None
+        if tail is not False:
+            problems.append('all limbs equal (x == p) must be rejected: the value after the scan is not the literal `false`')
+    # ---- form C: comparison operators / Iterator comparison methods against the modulus
+    for n in walk(body):
+        if n.get('k') == 'mcall' and n.get('m') in ('lt', 'le', 'gt', 'ge', 'cmp', 'partial_cmp') and (mentions_modulus(n['recv']) or any(mentions_modulus(a) for a in n.get('args', []))):
+            x_recv = not mentions_modulus(n['recv'])
+            m = n['m']
+            if (m == 'lt' and x_recv) or (m == 'gt' and not x_recv):
+                forms.append('strict-comparison')
+            elif m in ('cmp', 'partial_cmp'):
+                forms.append('ordering')
+                problems.append(f'line {n.get("l")}: decides through an Ordering: not a recognised strict form (needs triage)')
+            else:
+                forms.append('comparison')
+                problems.append(f'line {n.get("l")}: `.{m}()` against the modulus ' + ('accepts x == p (non-strict)' if m in ('le', 'ge') else 'has the operands the wrong way round'))
+        if n.get('k') == 'bin' and n.get('op') in ('<', '<=', '>', '>=') and (mentions_modulus(n['a']) != mentions_modulus(n['b'])):
+            x_left = not mentions_modulus(n['a'])
+            op = n['op']
+            if (op == '<' and x_left) or (op == '>' and not x_left):
+                forms.append('strict-comparison')
+            else:
+                forms.append('comparison')
+                problems.append(f'line {n.get("l")}: `{op}` against the modulus is not the strict test x < p')
+    if not forms:
+        problems.append('no recognised comparison against the modulus (borrow chain x - p, most-significant-first scan, or a strict `<`)')
+    return forms, problems
+
+
+def r2_strict(ck, w):
+    ck.rule('C10.R2', 'STRICT: every leaf modulus validator decides x < p strictly, in a recognised form: (a) borrow chain sbb(x_i, p_i, borrow) whose final borrow bit '
+                      'must be SET; (b) scan from the most significant limb with x_i < p_i -> true, x_i > p_i -> false, equality falling through to `false`; '
+                      '(c) a strict `<` / Iterator::lt with the candidate on the left.  `<=`-shaped variants accept the modulus itself as a second encoding of 0.')
+    n = 0
+    for xid in tables.C10_VALIDATORS:
+        f = w.fn_x(xid, required=False)
+        if f is None:
+            ck.bad('C10.R2', f'{xid}:anchor', f'validator {xid} not found (anchor)')
+            continue
+        n += 1
+        forms, problems = classify_validator(f)
+        ck.record('C10.R2', f'{xid}:strict', not problems, f'strict, form(s) {sorted(set(forms))}',
+                  f'{xid}: ' + '; '.join(problems), hirq.fn_loc(f))
+    ck.floor('C10.R2', 'modulus validators', n, 5)
